@@ -105,6 +105,12 @@ def diffComponent (a b : RPod) : String :=
 /-- What the harness observed for one pod. -/
 structure Obs where
   status : String := ""
+  /-- the documented decision for this admission (`specDecision` of the abstracted inputs, computed by the driver
+      with the concrete model `injectRequiredC`); `none` when the trace carries no decision inputs -/
+  expect : Option Bool := none
+  /-- "must": the injector has to refuse the pod (unknown template, documented-invalid annotation value);
+      "may": a repository fixture without golden output; "no": the pod has to be injected -/
+  refusal : String := "no"
   orig   : Option RPod := none
   once   : Option RPod := none
   twice  : Option RPod := none
@@ -115,29 +121,44 @@ inductive Verdict
   | fail (clause : String)
   deriving DecidableEq, Repr
 
-/-- The judgement for one observed pod. -/
+/-- The three monitors on a complete observation of an injected pod. -/
+def judgeMonitors (o : Obs) : Verdict :=
+  match o.orig, o.once, o.twice with
+  | some a, some b, some c =>
+    if !keepsContainersB a b then .fail "preserve-once-containers"
+    else if !keepsInitsB a b then .fail "preserve-once-inits"
+    else if !keepsVolumesB a b then .fail "preserve-once-volumes"
+    else if !keepsContainersB a c then .fail "preserve-twice-containers"
+    else if !keepsInitsB a c then .fail "preserve-twice-inits"
+    else if !keepsVolumesB a c then .fail "preserve-twice-volumes"
+    else if !idempotentB b c then .fail ("idempotent " ++ diffComponent b c)
+    else .okInjected
+  | _, _, _ => .fail "incomplete-trace"
+
+/-- A skipped pod must be handed back unchanged. -/
+def judgeSkipped (o : Obs) : Verdict :=
+  match o.orig, o.once with
+  | some a, some b => if idempotentB a b then .okSkipped else .fail "skipped-but-changed"
+  | _, _ => .fail "incomplete-trace"
+
+/-- The judgement for one observed pod: first the outcome of the admission (skipped / refused / injected) against
+    the documented decision, then the monitors. -/
 def judge (o : Obs) : Verdict :=
   match o.status with
   | "unloadable" => .okUnloadable
-  | "error" => .okRejected        -- the injector refused the pod: nothing was changed
   | "crash" => .fail "crash"
-  | "error-on-reinjection" | "crash-on-reinjection" => .fail "reinjection-errors"
+  | "bad-patch" => .fail "bad-patch"
+  | "error-on-reinjection" | "crash-on-reinjection" | "bad-patch-on-reinjection" => .fail "reinjection-errors"
+  | "error" =>
+    if o.expect = some false then .fail "decision-refused-but-documented-skip"
+    else if o.refusal = "no" then .fail "unexpected-refusal"
+    else .okRejected                 -- the injector refused the pod: nothing was changed
   | "skipped" =>
-    match o.orig, o.once with
-    | some a, some b => if idempotentB a b then .okSkipped else .fail "skipped-but-changed"
-    | _, _ => .fail "incomplete-trace"
+    if o.expect = some true then .fail "decision-skipped-but-documented-inject" else judgeSkipped o
   | "injected" =>
-    match o.orig, o.once, o.twice with
-    | some a, some b, some c =>
-      if !keepsContainersB a b then .fail "preserve-once-containers"
-      else if !keepsInitsB a b then .fail "preserve-once-inits"
-      else if !keepsVolumesB a b then .fail "preserve-once-volumes"
-      else if !keepsContainersB a c then .fail "preserve-twice-containers"
-      else if !keepsInitsB a c then .fail "preserve-twice-inits"
-      else if !keepsVolumesB a c then .fail "preserve-twice-volumes"
-      else if !idempotentB b c then .fail ("idempotent " ++ diffComponent b c)
-      else .okInjected
-    | _, _, _ => .fail "incomplete-trace"
+    if o.expect = some false then .fail "decision-injected-but-documented-skip"
+    else if o.refusal = "must" then .fail "expected-refusal-but-injected"
+    else judgeMonitors o
   | _ => .fail "unknown-status"
 
 /-- The line printed for a `check` line (same vocabulary as the harness oracle). -/
